@@ -395,6 +395,9 @@ class Exec:
             return self.operand(fr, s[9:])
         if s.startswith("const "):
             return self.const(s[6:].strip())
+        if re.match(r"^[A-Za-z_<][\w<>:&' ,\[\]]*::\w+$", s):
+            # a function item passed as a value (e.g. `.map(StringTable::new)`): called through call_closure
+            return Opaque("fnitem", data=s)
         raise Unsupported("operand: " + s)
 
     def const(self, c):
@@ -744,7 +747,7 @@ class Exec:
             st = getattr(self, "self_ty", None)
             if st:
                 fn = prog.find((st, key[1]))
-            if fn is None:
+            if fn is None and fr is not None:
                 fn = prog.find((fr.fn.key[0], key[1]))
         if fn is None:
             # trait default method (e.g. ParseAt::validate_entsize): definition keyed by trait name
